@@ -66,6 +66,7 @@ class Contract:
         self.replay_fields: list[str] = []
         self.unmodelled: list[str] = []
         self.present_attrs: list[str] = []
+        self.dict_keys = "identity"  # or "pyeq": dict displays created by the kernel are keyed by ==/hash
         self.unique_dispatch = False  # receivers whose mutation is outside the modelled state
 
     # -- declaration helpers -------------------------------------------------
@@ -163,6 +164,8 @@ class Registry:
             elif qualname.startswith("property:"):
                 self.properties[qualname[len("property:"):]] = c
             else:
+                if qualname in self.contracts:
+                    raise ValueError(f"duplicate contract for {qualname}")
                 self.contracts[qualname] = c
             return c
         return deco
